@@ -665,7 +665,7 @@ V("C18-sorted-set-equiv", "C18", [], [(BASE, "        drop_rows: Sequence[int] =
 TINIT = "formulaic/transforms/__init__.py"
 V("C13-revert-exp10", "C13", ["C13.R1"], [(TINIT, '"exp10": lambda x: numpy.power(10.0, x),', '"exp10": lambda x: numpy.power(x, 10),')], "origin: revert da70647 (exp10(x) = x**10)")
 V("C13-log2-misbound", "C13", ["C13.R1"], [(TINIT, '"log2": numpy.log2,', '"log2": numpy.log10,')])
-V("C13-exp10-pow-equiv", "C13", [], [(TINIT, '"exp10": lambda x: numpy.power(10.0, x),', '"exp10": lambda v: 10 ** v,')])
+V("C13-exp10-pow-equiv", "C13", [], [(TINIT, '"exp10": lambda x: numpy.power(10.0, x),', '"exp10": lambda v: 10.0 ** v,')])
 V("C13-scale-uncentred-std", "C13", ["C13.R2"], [(SCALE, '    if _state["center"] is not None:\n        data = data - _state["center"]\n', '')],
   "the scale would be estimated (and applied) without centring")
 V("C13-ddof-ignored", "C13", ["C13.R2"], [(SCALE, "numpy.sum(data**2, axis=0) / (data.shape[0] - ddof)", "numpy.sum(data**2, axis=0) / (data.shape[0] - 1)")])
@@ -741,3 +741,28 @@ V("C07-rehydrate-scale", "C07", ["C07.R6"], [("formulaic/materializers/types/sco
 V("C02-rehydrate-scale", "C02", ["C02.R2"], [("formulaic/materializers/types/scoped_term.py", "                for factor in self.factors\n            ],\n            scale=self.scale,\n        )\n\n    @property", "                for factor in self.factors\n            ],\n        )\n\n    @property")], "seed C02-s2")
 V("C07-C-label-drop", "C07", ["C07.R7"], [(CONTRASTS, "        values = values.iloc[numpy.delete(numpy.arange(values.shape[0]), drop_rows)]", "        values = values.drop(index=values.index[drop_rows])")], "seed C07-s3")
 V("C18-env-conditional-wrap", "C18", ["C18.R4"], [(STATEFUL, "    env = LayeredMapping(\n        env\n    )  # We sometimes mutate env, so we make sure we do so in a local mutable layer.", "    if not isinstance(env, LayeredMapping):\n        env = LayeredMapping(env)")], "seed C18-s1")
+
+V("C13-exp10-int-base", "C13", ["C13.R1"], [(TINIT, '"exp10": lambda x: numpy.power(10.0, x),', '"exp10": lambda x: numpy.power(10, x),')], "seed C13-s1: integer base fails on integer columns")
+V("C13-poly-norm-floor", "C13", ["C13.R2"], [(POLY, "    P /= numpy.array([numpy.sqrt(get_norm(k)) for k in range(0, degree + 1)])", "    P /= numpy.array([numpy.sqrt(max(get_norm(k), numpy.finfo(float).eps)) for k in range(0, degree + 1)])")], "seed C13-s3")
+
+# ----------------------------------------------------------------------------------------- distilled from wave-2 seeds
+V("C11-diff-sparse-before-sign", "C11", ["C11.R6"], [(CONTRASTS, """        if not self.backward:
+            contr *= -1
+        if sparse:
+            return spsparse.csc_matrix(contr)
+        return contr""", """        if sparse:
+            return spsparse.csc_matrix(contr)
+        if not self.backward:
+            contr *= -1
+        return contr""")], "seed C11-s2")
+V("C11-helmert-divisor", "C11", ["C11.R7"], [(CONTRASTS, "                contr[:, i] /= i + 2 if self.reverse else n - i", "                contr[:, i] /= i + 2")], "seed C11-s3")
+V("C11-helmert-divisor-commuted-equiv", "C11", [], [(CONTRASTS, "                contr[:, i] /= i + 2 if self.reverse else n - i", "                contr[:, i] /= 2 + i if self.reverse else -i + n")])
+V("C11-base-truthiness", "C11", ["C11.R7"], [(CONTRASTS, "        if self.base is UNSET:\n            return 0", "        if not self.base:\n            return 0")], "seed C11-s1")
+V("C03-drop-guard-truthy", "C03", ["C03.R6"], [(BASE, "            and encoded.__formulaic_metadata__.spans_intercept  # type: ignore\n            and reduced_rank\n", "            and encoded.__formulaic_metadata__.spans_intercept  # type: ignore\n            and encoded.__formulaic_metadata__.drop_field  # type: ignore\n            and reduced_rank\n")], "seed C03-s2")
+V("C19-update-falsy-root", "C19", ["C19.R1"], [(STRUCT, "        if root is not MISSING:\n            structure[\"root\"] = root\n        return self.__class__(", "        if root:\n            structure[\"root\"] = root\n        return self.__class__(")], "seed C19-s3")
+V("C19-setitem-conditional-reorder", "C19", ["C19.R4"], [(FORMULA, "        self.__terms[key] = value\n        self._reorder()", "        previous = self.__terms[key]\n        self.__terms[key] = value\n        if previous.degree != value.degree:\n            self._reorder()")], "seed C19-s1")
+V("C20-early-break", "C20", ["C20.R2"], [(CALC, "    for var in wrt:\n        affected_factors = set(", "    for var in wrt:\n        if not factors:\n            break\n        affected_factors = set(")], "seed C20-s3")
+V("C08-is-string-dtype", "C08", ["C08.R1"], [(PANDAS, "            return values.dtype == object or isinstance(\n                values.dtype, (pandas.CategoricalDtype, pandas.StringDtype)\n            )", "            return isinstance(values.dtype, pandas.CategoricalDtype) or pandas.api.types.is_string_dtype(values)")], "seed C08-s1")
+V("C08-droprows-to-numpy", "C08", ["C08.R4"], [(NULLS, "    return values.iloc[numpy.delete(numpy.arange(values.shape[0]), indices)]", "    return pandas.Series(numpy.delete(values.to_numpy(), indices), index=values.index.delete(indices), name=values.name)")], "seed C08-s2")
+V("C10-stateful-eval-aliases-dropped", "C10", ["C10.R3"], [(STATEFUL, "        variables.update(get_expression_variables(code, env, aliases))", "        variables.update(get_expression_variables(code, env))")], "seed C10-s3")
+V("C05-droprows-overrides", "C05", ["C05.R3"], [(SPEC, "            return self.update(**attr_overrides).get_model_matrix(\n                data, context=context, drop_rows=drop_rows\n            )", "            return self.update(**attr_overrides).get_model_matrix(\n                data, context=context\n            )")], "seed C05-s3")
